@@ -215,6 +215,17 @@ CHECKS = {
               "re-adding, tolerance-level perturbation; orientation laws on the implementation; twins, handedness, self-connected patches."),
         note=TB + " C17: Properties/C17.v is closed under the global context (no axioms).",
         design='DESIGN.md section 8, C17'),
+    'C18': dict(
+        engine='numbering',
+        technique='Coq proof (first-come numbering is a consistent bijection onto 0..ncps-1 by induction over patches and points; IFEM flag injective by kernel computation) + differential run of generate_cp_numbers vs the extracted abstract model + mesh export checks on random complexes',
+        text=("PARTIAL proof level. Theorems in Properties/C18.v: in the abstract numbering (patches in insertion order, a point not contained in an earlier patch gets the next number in the "
+              "patch's own enumeration) two control points carry the same number exactly when they are the same geometric point, all numbers are below ncps and every number below ncps is "
+              "used; the IFEM orientation flag determines the relative orientation of an edge/face interface. Not proved (L2 only): that ownership/sections/orientations of the implementation "
+              "realise this numbering (checked by L1 on every generated complex), cell numbers, the exported face list (owner < neighbour, six faces per cell, normals), OpenFOAM ordering. "
+              "Correspondence: L1 cp_numbers of every patch vs the extracted model on the point identities; L2 numbering vs geometric identity, range, cps(), cell numbers, IFEM connections "
+              "vs the interfaces of the complex with decoded flags, faces of trilinear right-handed models incl. normals, OpenFOAM files (also into a new directory)."),
+        note=TB + " C18: Properties/C18.v is closed under the global context (no axioms). Point identity is taken from coordinates rounded to 1e-6.",
+        design='DESIGN.md section 8, C18'),
 }
 
 PENDING_REASON = "not claimed in this revision: model/theorems for this property are still being built (see DESIGN.md section 8 for the plan)"
